@@ -899,6 +899,28 @@ pub fn c03(eng: &mut Engine, rng: &mut Rng, thorough: bool, out: &mut Out) -> Ca
                 emit_legacy(eng, out, &mut cases, "c03.legacy", "c03:group-duplicate-name:unrequested-member-added", "", Some(false), &p, &b.ghosts, &b.agg, &b.req, &o, "safety");
             }
         }
+        // a names group that lists one attribute in several spellings (the sub proof holds one value for all of them): every member of the
+        // revealed group, under every spelling, is compared with the signed value
+        for names in [vec!["name", "Name", "sex"], vec!["Name", "name"], vec!["sex", "N a m e", "NAME", "name"], vec!["height", " height", "HEIGHT "]] {
+            let h = eng.cast.cred("a_alice");
+            let plan = Plan { creds: vec![CredUse { held: h, state_list: None, ts_only: None }],
+                refs: vec![RefPlan { referent: "g".into(), kind: Kind::Group(names.iter().map(|n| n.to_string()).collect()), cred: Some(0), revealed: true, restrictions: None, non_revoked: None }],
+                global_nr: None, nonce: format!("{}", 1000 + rng.below(1_000_000_000)), holder: 0 };
+            match eng.build_legacy(&plan) {
+                Ok(b) => {
+                    emit_legacy(eng, out, &mut cases, "c03.legacy", "c03:group-respelled-name:honest", "", None, &b.pres, &b.ghosts, &b.agg, &b.req, &o, "safety");
+                    let members: Vec<String> = b.pres["requested_proof"]["revealed_attr_groups"]["g"]["values"].as_object().map(|o| o.keys().cloned().collect()).unwrap_or_default();
+                    for m in members {
+                        let mut p = b.pres.clone();
+                        let e = p["requested_proof"]["revealed_attr_groups"]["g"]["values"][m.as_str()]["encoded"].as_str().unwrap_or("0").to_string();
+                        p["requested_proof"]["revealed_attr_groups"]["g"]["values"][m.as_str()]["encoded"] = json!(if e.len() > 12 { perturb_decimal(&e) } else { format!("{}1", e) });
+                        p["requested_proof"]["revealed_attr_groups"]["g"]["values"][m.as_str()]["raw"] = json!("Mallory");
+                        emit_legacy(eng, out, &mut cases, "c03.legacy", "c03:group-respelled-name:member-altered", "", Some(false), &p, &b.ghosts, &b.agg, &b.req, &o, "safety");
+                    }
+                }
+                Err(_) => out.count("c03:group-respelled-name:not-presentable"),
+            }
+        }
         // two credentials: values attributed to the other credential
         let plan = two_cred_plan(rng, eng, "a_alice", "b_alice");
         if let Ok(b) = eng.build_w3c(&plan) {
